@@ -730,7 +730,21 @@ def _src_labels(body, origs, alpha, depth=0):
         elif o.kind == "call":
             ct = body.call_at(o)
             callee = ct.get("callee") or ""
-            if (callee.endswith("Try::branch") or callee in OUTCOME_PRESERVING) and depth < 4 and not alpha.call_label(ct):
+            if callee == "core::option::{impl#0}::map" and depth < 4 and not alpha.call_label(ct) and len(ct.get("args", [])) == 2:
+                if o.proj and str(o.proj[0]).endswith(":Some"):
+                    # the payload of `opt.map(|x| <labelled test>)` is what the closure returned
+                    # (`let occupant_stopped = registry.get(&key).map(|e| e.is_stopped()); match occupant_stopped { Some(false) => ..`)
+                    for co_ in body.origins(ct["args"][1]):
+                        if co_.kind == "agg" and not co_.proj and fx_ is not None:
+                            cst = body.blocks[co_.site[0]]["s"][co_.site[1]]["r"]
+                            cf = fx_.fn(cst.get("def") or "") if cst.get("ak") == "closure" else None
+                            if cf is not None and "pre" in cf:
+                                cb = Body(cf)
+                                out |= _src_labels(cb, cb.origins([0]), alpha, depth + 1)
+                else:
+                    # Some / None is that of the value it is applied to
+                    out |= _src_labels(body, body.origins(ct["args"][0]), alpha, depth + 1)
+            elif (callee.endswith("Try::branch") or callee in OUTCOME_PRESERVING) and depth < 4 and not alpha.call_label(ct):
                 # `?` and map_err keep the Ok / Err outcome of the value they are applied to
                 out |= _src_labels(body, body.origins(ct["args"][0]), alpha, depth + 1)
             else:
@@ -963,6 +977,18 @@ def switch_labels(body, bi, t, alpha, tysub=None):
                 lab = alpha.call_label(body.call_at(x))
                 if lab in alpha.bools:
                     labs.add(lab)
+        if not labs and len(cur) == 1:
+            # the bool inside `opt.map(|x| <labelled test>)`, matched as `Some(true)` / `Some(false)`
+            via = _bool_through_option_map(body, next(iter(cur)), alpha)
+            if via is not None:
+                lab, neg2 = via
+                n_ = neg != neg2
+                for (val, _b) in t["targets"]:
+                    labels[val] = "bool:%s=%d" % (lab, int((int(val) != 0) != n_))
+                vals = {int(v) != 0 for (v, _) in t["targets"]}
+                if len(vals) == 1:
+                    labels["otherwise"] = "bool:%s=%d" % (lab, int((not next(iter(vals))) != n_))
+                return labels
         if len(labs) == 1 and len(cur) == 1:
             lab = next(iter(labs))
             suffix = ""
@@ -981,6 +1007,43 @@ def switch_labels(body, bi, t, alpha, tysub=None):
                 ov = not next(iter(vals))
                 labels["otherwise"] = "bool:%s=%d%s" % (lab, int(ov != neg), suffix)
     return labels
+
+
+def _bool_through_option_map(body, o, alpha):
+    """`o`: the origin of a bool that is the payload of an `Option` made by `opt.map(closure)` with a visible closure whose
+    returned value is the result of one call labelled as a bool test: (label, negated) or None"""
+    if o.kind != "call" or not o.proj or not str(o.proj[0]).endswith(":Some"):
+        return None
+    ct = body.call_at(o)
+    fx_ = getattr(alpha, "_fx", None)
+    if (ct.get("callee") or "") != "core::option::{impl#0}::map" or len(ct.get("args", [])) != 2 or fx_ is None:
+        return None
+    cos = body.origins(ct["args"][1])
+    if len(cos) != 1:
+        return None
+    co_ = next(iter(cos))
+    if co_.kind != "agg" or co_.proj:
+        return None
+    cst = body.blocks[co_.site[0]]["s"][co_.site[1]]["r"]
+    cf = fx_.fn(cst.get("def") or "") if cst.get("ak") == "closure" else None
+    if cf is None or "pre" not in cf:
+        return None
+    cb = Body(cf)
+    cur = cb.origins([0])
+    neg = False
+    for _ in range(3):
+        ops = [x for x in cur if x.kind == "op"]
+        if len(ops) == 1 and len(cur) == 1:
+            st = cb.blocks[ops[0].site[0]]["s"][ops[0].site[1]]
+            if st["r"]["k"] == "un" and st["r"]["op"] == "Not":
+                neg = not neg
+                cur = cb.origins(st["r"]["o"])
+                continue
+        break
+    if len(cur) != 1 or next(iter(cur)).kind != "call":
+        return None
+    lab = alpha.call_label(cb.call_at(next(iter(cur))))
+    return (lab, neg) if lab in alpha.bools else None
 
 
 # ---- conformance ----------------------------------------------------------------------------------
